@@ -351,6 +351,22 @@ func (s *socket) MaybeUpgrade(transport transports.Transport) {
 	var onPacket, onError, onTransportClose, onClose events.Listener
 	var upgradeTimeoutTimer, checkIntervalTimer atomic.Pointer[utils.Timer]
 
+	// the ways this attempt can end (upgrade packet, unexpected packet, error or
+	// close of the candidate, close of the session, timeout) run on different
+	// goroutines: exactly one of them concludes it, and nothing is armed for an
+	// attempt that is over
+	var mu sync.Mutex
+	finished := false
+	conclude := func() bool {
+		mu.Lock()
+		defer mu.Unlock()
+		if finished {
+			return false
+		}
+		finished = true
+		return true
+	}
+
 	onPacket = func(datas ...any) {
 		data := datas[0].(*packet.Packet)
 		sb := new(strings.Builder)
@@ -360,10 +376,17 @@ func (s *socket) MaybeUpgrade(transport transports.Transport) {
 			transport.Send([]*packet.Packet{{Type: packet.PONG, Data: strings.NewReader("probe")}})
 			s.Emit("upgrading", transport)
 
-			utils.ClearInterval(checkIntervalTimer.Load())
-			checkIntervalTimer.Store(utils.SetInterval(check, 100*time.Millisecond))
+			mu.Lock()
+			if !finished {
+				utils.ClearInterval(checkIntervalTimer.Load())
+				checkIntervalTimer.Store(utils.SetInterval(check, 100*time.Millisecond))
+			}
+			mu.Unlock()
 
 		} else if packet.UPGRADE == data.Type && s.ReadyState() != "closed" {
+			if !conclude() {
+				return
+			}
 			socket_log.Debug("got upgrade packet - upgrading")
 			// upgraded before cleanup() resets upgrading: a later candidate must
 			// at every moment see at least one of the two flags
@@ -381,6 +404,9 @@ func (s *socket) MaybeUpgrade(transport transports.Transport) {
 				})
 			}
 		} else {
+			if !conclude() {
+				return
+			}
 			cleanup()
 			transport.Close()
 		}
@@ -415,6 +441,9 @@ func (s *socket) MaybeUpgrade(transport transports.Transport) {
 
 	onError = func(err ...any) {
 		socket_log.Debug("client did not complete upgrade - %v", err[0])
+		if !conclude() {
+			return
+		}
 		cleanup()
 		// the variable is shared with the packet listener and the upgrade
 		// timer, which run on other goroutines: it must not be reset here
@@ -432,6 +461,9 @@ func (s *socket) MaybeUpgrade(transport transports.Transport) {
 	// set transport upgrade timer
 	upgradeTimeoutTimer.Store(utils.SetTimeout(func() {
 		socket_log.Debug("client did not complete upgrade - closing transport")
+		if !conclude() {
+			return
+		}
 		cleanup()
 		if transport != nil {
 			if transport.ReadyState() == "open" {
